@@ -410,16 +410,19 @@ def _validate_part(part):
     return r
 
 
-def validate(traces, consts_text, chunk=3000):
+def validate(traces, consts_text, chunk=None):
     global _VAL_EXTRA
     _VAL_EXTRA = {"MC_C02_consts.tla": consts_text}
+    nproc = int(os.environ.get("VERIF_PROCS") or 16)
+    if chunk is None:          # one JVM start costs about 2.5 s, one trace about 1 ms: few, large, parallel chunks
+        chunk = min(12000, max(2000, -(-len(traces) // nproc)))
     slim = [{"id": t["id"], "init": t["init"], "events": t["events"]} for t in traces]
     parts = [(o, slim[o:o + chunk]) for o in range(0, len(slim), chunk)]
     if len(parts) <= 1:
         rs = [_validate_part(p) for p in parts]
     else:
         import multiprocessing as mp
-        procs = min(len(parts), int(os.environ.get("VERIF_PROCS") or 16))
+        procs = min(len(parts), nproc)
         with mp.get_context("fork").Pool(procs) as pool:
             rs = pool.map(_validate_part, parts, chunksize=1)
     tot = {"accepted": 0, "rejected": [], "drift": [], "states": 0, "generated": 0, "wall_s": 0.0, "cmd": ""}
@@ -468,7 +471,7 @@ def lines_run(chk, name, c, shipped, conf_exprs, waptop, raises, tier, reps, onl
     """model-check one configuration, replay its cases on the real code, validate the traces."""
     consts_text, listed = consts_module(c, shipped, waptop, raises)
     res = tlc.check_model("MC_C02_lines", "MC_C02_lines.cfg", extra_files={"MC_C02_consts.tla": consts_text},
-                          dump=True, coverage=True, timeout=2400)
+                          dump=True, coverage=False, timeout=2400)     # (-coverage doubles the cost; vacuity is guarded below)
     t0 = time.time()
     try:
         if res["inv_violations"]:
